@@ -1,6 +1,7 @@
 """C03 — fd events (DESIGN §4 C03)."""
 from tbxlint.facts import extract, AnalysisBroken, MODULES
 from tbxlint import locks, q, exc, rd, reent
+from rules import C03_replay
 
 SCOPE = ['event/engines/epoll/loop.cpp', 'event/engines/epoll/fd_event.cpp', 'event/engines/select/loop.cpp',
          'event/engines/select/fd_event.cpp', 'event/common_loop.cpp', 'event/common_loop_run.cpp', 'event/common_loop_timer.cpp',
@@ -390,6 +391,56 @@ def r9(ctx, prog):
                                                                                                   if bad and bad[0] > 0 else 'it is never recycled'), where=u.loc(fr[0]['i']))
 
 
+def r10(ctx, prog):
+    ctx.rule('C03.R10', 'A4 guard reference paired by key: in each dispatch loop the reference taken on a descriptor\'s record before its callbacks run is dropped through '
+             'unrefFdSharedData(k) where k is the key that record is registered under — the unchanged expression given to fd_data_map_.find() in this iteration, or the '
+             'record\'s own key field, provided that back-end\'s refFdSharedData() stores its parameter into that field on every freshly allocated record and nothing else '
+             'writes it. Otherwise every dispatch drops a reference of some other descriptor\'s record (which is recycled under its enabled events) and leaks its own', floor=2)
+    for be, (ev, lp, sd) in BACKENDS.items():
+        f = prog.fn1(lp + '::runLoop')
+        disp = q.calls(f, callee=ev + '::OnEventCallback')
+        if not disp:
+            raise AnalysisBroken('%s::runLoop: dispatch call not found' % lp)
+        finds = [c for c in f.calls() if c.get('fn') in ('find', 'at', 'operator[]') and 'obj' in c and (f.field_of(c['obj']) or '').endswith('fd_data_map_') and c.get('args')]
+        for c in disp:
+            rec = f.path(c['args'][-1])
+            un = [u for u in f.calls() if u.get('fn') == 'unrefFdSharedData' and u.get('args') and f.cfg.exists_path(q.pt(f, c), q.pt(f, u))]
+            if not un:
+                ctx.ob('C03.R10', '%s|guard-dropped' % f.name, False, 'no unrefFdSharedData() follows the dispatch: the guard reference is never dropped', where=f.loc(c['i']))
+                continue
+            for u in un:
+                k = u['args'][0]
+                kx = f.s(f.strip_casts(k))
+                kp = f.path(k)
+                ok, how = False, ''
+                same = [fc for fc in finds if f.path(fc['args'][0]) == kp and f.cfg.exists_path(q.pt(f, fc), q.pt(f, c))]
+                def unchanged(fc):
+                    # no modification of the key between this look-up and the unref that is not followed by a fresh look-up (the loop counter steps between iterations)
+                    a, b = q.pt(f, fc), q.pt(f, u)
+                    return not any(f.cfg.exists_path(a, m, src_inclusive=False) and f.cfg.exists_path(m, b, src_inclusive=False, avoid=[a]) for m in q.mod_points(f, kp, False))
+                if same and all(unchanged(fc) for fc in same):
+                    ok, how = True, 'the key given to fd_data_map_.%s(%s) in this iteration' % (same[0]['fn'], kp)
+                elif kx is not None and kx['k'] == 'MemberExpr' and kx.get('mk') == 'field' and kx.get('ch') and f.path(kx['ch'][0]) == rec:
+                    fld = kx['n']
+                    g = prog.fn1(lp + '::refFdSharedData')
+                    key = g.params[0]['n'] if g.params else None
+                    st_ = [(a, rhs) for a, rhs in q.assigns(g, sd.split('::')[-1] + '::' + fld)]
+                    allocs = [a for a in g.calls() if a.get('fn') == 'alloc']
+                    good = [a for a, rhs in st_ if rhs is not None and g.path(rhs) == key]
+                    others = [(h, a) for h in prog.funcs.values() if h is not g and h.file.startswith(g.file.rsplit('/', 1)[0]) for a, rhs in q.assigns(h, sd.split('::')[-1] + '::' + fld)]
+                    covered = bool(good) and bool(allocs) and all(not g.cfg.exists_path(q.pt(g, a), 'exit', avoid=[q.pt(g, x) for x in good]) for a in allocs)
+                    if covered and len(good) == len(st_) and not others:
+                        ok, how = True, 'the record\'s field %s, which refFdSharedData() sets to its key on every new record' % fld
+                    else:
+                        how = 'the record\'s field %s, which %s' % (fld, 'this back-end never stores the key into (it keeps its initial value for every descriptor)' if not st_ and not others
+                                                                   else 'is not stored from the key on every freshly allocated record, or is written elsewhere')
+                else:
+                    how = '%s, which is neither the key looked up in this iteration nor the record\'s key field' % kp
+                ctx.ob('C03.R10', '%s|unref-key' % f.name, ok, 'the guard reference on %s is dropped under %s' % (rec, how) if ok else
+                       'the guard reference taken on %s is dropped through unrefFdSharedData(%s): %s — another descriptor\'s record loses a reference on every dispatch and this one is '
+                       'never released' % (rec, kp, how), where=f.loc(u['i']))
+
+
 def run(ctx):
     prog = extract('ALL' if ctx.tier == 'thorough' else SCOPE)
     ctx.guard(r1, ctx, prog)
@@ -400,4 +451,6 @@ def run(ctx):
     ctx.guard(r7, ctx, prog)
     ctx.guard(r8, ctx, prog)
     ctx.guard(r9, ctx, prog)
+    ctx.guard(r10, ctx, prog)
+    ctx.guard(C03_replay.r11, ctx, prog, BACKENDS)
     return prog
